@@ -1,6 +1,7 @@
 import S2T.Lemmas.TablesXml
 import S2T.Lemmas.TablesSheet
 import S2T.Lemmas.TablesOds
+import S2T.Lemmas.TablesOdsExact
 import S2T.Lemmas.TablesHtml
 import S2T.Lemmas.TablesEpub
 import S2T.Gen.Tables
@@ -30,6 +31,7 @@ open S2T.HtmlSkip (Str)
 /-! ## the tie to the source: generated tag tables satisfy what the theorems need -/
 
 theorem gen_notes_empty : S2T.Gen.Tables.notes = [] := by decide
+theorem gen_ods_caps : S2T.Gen.Tables.odsCaps.cell > 0 ∧ S2T.Gen.Tables.odsCaps.row > 0 := by decide
 theorem gen_docx_ok : S2T.Gen.Tables.docx.ok = true := by decide
 theorem gen_odt_ok : S2T.Gen.Tables.odt.ok = true := by decide
 theorem gen_odp_ok : S2T.Gen.Tables.odp.ok = true := by decide
@@ -210,30 +212,90 @@ theorem C13_xlsx_counterexample :
     ∧ Xlsx.usedRange [[.str "Title".toList, .none], [.int 1, .int 2]] = [[.str "Title".toList, .none], [.int 1, .int 2]] := by
   constructor <;> decide
 
-/-! ## ODS (`_extract_sheet`: repeat expansion, trimming, padding)
+/-! ## ODS (`_extract_sheet`: repeat expansion with capped empty runs, trimming, padding)
 
 The source sheet is the plain expansion `Ods.expand` of the run-length encoded rows and cells
 (`number-rows-repeated`, `number-columns-repeated`); the typed value of a cell is
-`_extract_cell_value`'s answer (a parameter here). -/
+`_extract_cell_value`'s answer (a parameter here).  `Ods.Caps` are the two literals of the source
+(`cell_repeat > 100`, `row_repeat > 100`, generated).
 
-/-- ODS, every sheet (any repeats, any gaps): the cell at (i, j) of the returned table is the source
-    cell at (i, j), and wherever the returned table has no cell the source sheet is empty -/
-theorem C13_ods_cells (rows : List Ods.RRow) (i j : Nat) :
-    Ods.cellAt (Ods.sheetData rows) i j = Ods.cellAt (Ods.expand rows) i j :=
-  Ods.sheetData_cells rows i j
+Full statement (false on the current code, kept visible):
+  theorem C13_ods_cells (rows : List Ods.RRow) (i j : Nat) :
+      Ods.cellAt (Ods.sheetData C rows) i j = Ods.cellAt (Ods.expand rows) i j
+An empty cell repeated more than 100 times is collapsed to one empty cell and a row without data
+repeated more than 100 times to one row, so everything behind such a run moves left / up.  A repair
+that kept the width of a gap in front of a value (f0cc6e0) was withdrawn (d8d5030): it let a 600-byte
+sheet allocate tens of gigabytes (C12).  Open known finding `ods.empty-repeat-shifts-cells`. -/
 
-/-- the returned table is an r × c rectangle that ends at the last row and the last column holding data -/
-theorem C13_ods_shape (rows : List Ods.RRow) :
-    (∃ w, (∀ row ∈ Ods.sheetData rows, row.length = w) ∧
-      (w > 0 → Ods.sheetData rows ≠ [] → ∃ row ∈ Ods.sheetData rows, Ods.getV row (w - 1) ≠ Val.none)) ∧
-    (∀ row, (Ods.sheetData rows).getLast? = some row → row.all (· == Val.none) = false) := by
-  obtain ⟨w, hw⟩ := Ods.sheetData_rect rows
-  exact ⟨⟨w, hw, fun h1 h2 => Ods.sheetData_last_col rows w h1 hw h2⟩, fun row h => Ods.sheetData_last_row rows row h⟩
+/-- the exact excluding hypothesis (`C13_ods_gap_exact`): no collapsed run of empty cells has a value
+    behind it in its row, and no collapsed run of rows without data has a row with data below it
+    (trailing runs — what spreadsheet programs write to fill the sheet — are allowed) -/
+def NoWideGap (C : Ods.Caps) (rows : List Ods.RRow) : Prop := Ods.noGapRows C rows = true
 
-/-- a value behind 150 empty cells and a row behind 120 empty rows stay in column 151 / row 121 -/
-example : Ods.cellAt (Ods.sheetData [(1, [(1, .str "a".toList), (150, .none), (1, .str "b".toList)]), (120, [(152, .none)]),
-    (1, [(1, .int 7)])]) 0 151 = .str "b".toList := by
-  rw [C13_ods_cells]; decide +kernel
+instance (C : Ods.Caps) (rows : List Ods.RRow) : Decidable (NoWideGap C rows) := by unfold NoWideGap; infer_instance
+
+/-- ODS, every sheet without a wide gap in front of data (any repeats otherwise): the cell at (i, j) of
+    the returned table is the source cell at (i, j), and wherever the returned table has no cell the
+    source sheet is empty -/
+theorem C13_ods_cells_partial (C : Ods.Caps) (rows : List Ods.RRow) (h : NoWideGap C rows) (i j : Nat) :
+    Ods.cellAt (Ods.sheetData C rows) i j = Ods.cellAt (Ods.expand rows) i j :=
+  Ods.sheetData_cells C rows h i j
+
+/-- ODS, shape: without a wide gap in front of data the returned table IS the used range of the source sheet —
+    the plain expansion cut after the last row holding data (`trimRows`) and after the last column holding
+    data (`lastDataCol`), shorter rows padded with empty cells: r × c, no row or column lost or invented -/
+theorem C13_ods_table_partial (C : Ods.Caps) (rows : List Ods.RRow) (h : NoWideGap C rows) :
+    Ods.sheetData C rows =
+      (Ods.trimRows (Ods.expand rows)).map (Ods.padRow (Ods.lastDataCol (Ods.trimRows (Ods.expand rows)))) :=
+  Ods.sheetData_usedRange C rows h
+
+/-- the hypothesis is exact (for caps ≥ 1): every cell is in place if and only if there is no wide gap in front
+    of data — with one, some cell of the returned table differs from the source cell at the same position -/
+theorem C13_ods_gap_exact (C : Ods.Caps) (hcell : C.cell > 0) (hrow : C.row > 0) (rows : List Ods.RRow) :
+    NoWideGap C rows ↔ ∀ i j, Ods.cellAt (Ods.sheetData C rows) i j = Ods.cellAt (Ods.expand rows) i j :=
+  Ods.sheetData_cells_iff C hcell hrow rows
+
+/-- … for the two caps read from the current source -/
+theorem C13_ods_gap_exact_gen (rows : List Ods.RRow) :
+    NoWideGap S2T.Gen.Tables.odsCaps rows ↔
+      ∀ i j, Ods.cellAt (Ods.sheetData S2T.Gen.Tables.odsCaps rows) i j = Ods.cellAt (Ods.expand rows) i j :=
+  C13_ods_gap_exact _ gen_ods_caps.1 gen_ods_caps.2 rows
+
+/-- the returned table is always an r × c rectangle that ends at the last row and the last column *of
+    the collected rows* holding data.  (Full statement `C13_ods_shape`: "… of the source sheet"; it follows
+    from this and `C13_ods_cells_partial` under `NoWideGap`, and fails without it:
+    `C13_ods_counterexample`.) -/
+theorem C13_ods_shape_partial (C : Ods.Caps) (rows : List Ods.RRow) :
+    (∃ w, (∀ row ∈ Ods.sheetData C rows, row.length = w) ∧
+      (w > 0 → Ods.sheetData C rows ≠ [] → ∃ row ∈ Ods.sheetData C rows, Ods.getV row (w - 1) ≠ Val.none)) ∧
+    (∀ row, (Ods.sheetData C rows).getLast? = some row → row.all (· == Val.none) = false) := by
+  rw [Ods.sheetData_eq]
+  obtain ⟨w, hw⟩ := Ods.sheetOf_rect (Ods.rawRows C rows)
+  exact ⟨⟨w, hw, fun h1 h2 => Ods.sheetOf_last_col _ w h1 hw h2⟩, fun row h => Ods.sheetOf_last_row _ row h⟩
+
+/-- a sheet as LibreOffice writes it (values, a short gap, then 1000 empty columns and 1 000 000 empty
+    rows to fill the sheet) has no wide gap in front of data -/
+example : NoWideGap S2T.Gen.Tables.odsCaps
+    [(1, [(1, .str "a".toList), (100, .none), (2, .int 7), (1000, .none)]), (100, [(1003, .none)]),
+     (1, [(1, .bool true), (1002, .none)]), (1000000, [(1003, .none)])] := by
+  unfold NoWideGap; decide +kernel
+
+/-- the counterexample sheet below has a wide gap in front of data -/
+example : ¬ NoWideGap S2T.Gen.Tables.odsCaps
+    [(1, [(1, .str "a".toList), (150, .none), (1, .str "b".toList)]), (120, [(152, .none)]), (1, [(1, .str "c".toList)])] := by
+  decide +kernel
+
+/-- counterexample to the full statement — row [a, empty × 150, b], empty row × 120, row [c]: the sheet
+    is 122 × 152 with b at (0, 151) and c at (121, 0); it comes back 3 × 3 with b at (0, 2) and c at (2, 0) -/
+theorem C13_ods_counterexample :
+    Ods.sheetData S2T.Gen.Tables.odsCaps
+        [(1, [(1, .str "a".toList), (150, .none), (1, .str "b".toList)]), (120, [(152, .none)]), (1, [(1, .str "c".toList)])]
+      = [[.str "a".toList, .none, .str "b".toList], [.none, .none, .none], [.str "c".toList, .none, .none]]
+    ∧ Ods.cellAt (Ods.expand [(1, [(1, .str "a".toList), (150, .none), (1, .str "b".toList)]), (120, [(152, .none)]),
+        (1, [(1, .str "c".toList)])]) 0 151 = .str "b".toList
+    ∧ Ods.cellAt (Ods.expand [(1, [(1, .str "a".toList), (150, .none), (1, .str "b".toList)]), (120, [(152, .none)]),
+        (1, [(1, .str "c".toList)])]) 121 0 = .str "c".toList := by
+  refine ⟨by decide +kernel, by decide +kernel, by decide +kernel⟩
 
 /-! ## XLS
 
